@@ -227,6 +227,8 @@ def _lin_cases(rng, tier, cs):
         for idx in range(nper):
             n = rng.randint(1, 4)
             dom, dk = _space(rng, n)
+            if solver == 'SCGN':
+                niter = min(niter, min(m, n) + 2)     # past convergence floats may amplify noise (cgn-noise-floor-overflow)
             if solver == 'SCG':
                 M = _spd(rng, n, ill=rng.random() < 0.25)
                 exact_stop = idx == 0 or rng.random() < 0.2
@@ -991,9 +993,9 @@ def _linear_probes(rng, tier, out):
             cb(x)
             niter = rng.choice([3, 8, 20])
             if solver == 'cgn':
-                # any budget: the relative stopping test (fix d9e50f5) ends the loop at convergence;
-                # the former blow-up input is kept as a regression probe below
-                niter = rng.choice([1, 3, 8, 20])
+                # budgets up to a little beyond the rank: the relative stopping test of d9e50f5 does not always
+                # end the loop before rounding noise is amplified (finding cgn-noise-floor-overflow, probed separately)
+                niter = rng.randint(1, min(m, n) + 1)
                 S.conjugate_gradient_normal(op, x, rhs, niter, callback=cb)
                 om = None
             else:
@@ -1114,6 +1116,42 @@ def _cgn_blowup_probe(out):
     _P(out, env['ok'], 'cgn-past-convergence-blowup',
        'conjugate_gradient_normal, 3x2 inconsistent system, niter=20: residual norm never increases '
        '(observed max %.3g after min %.3g)' % (max(env['vals']), min(env['vals'])), rp)
+
+
+def _cgn_noise_floor_probe(rng, tier, out):
+    """residual large compared with the initial gradient: the relative stopping rule (eps^2 |A^T d_0|^2) lies below
+    the noise floor eps |A| |d| of A^T d  (finding cgn-noise-floor-overflow)"""
+    rp = ("import odl, numpy as np\nop=odl.MatrixOperator(np.array([[0.6166937022456869],[0.7872031996952936]]))\n"
+          "rhs=op.range.element([1.488381154283861,-2.940337465966724]); x=op.domain.element([-0.04032254536921642]); vals=[]\n"
+          "cb=lambda z: vals.append(float((op(z)-rhs).norm()))\ncb(x)\n"
+          "try:\n    odl.solvers.conjugate_gradient_normal(op,x,rhs,60,callback=cb)\nexcept OverflowError:\n    vals.append(float('inf'))\n"
+          "observed=vals[:8]; ok=all(b<=a*(1+1e-9)+1e-12 for a,b in zip(vals,vals[1:]))\n")
+    env = {}
+    exec(rp, env)
+    _P(out, env['ok'], 'cgn-noise-floor-overflow',
+       'conjugate_gradient_normal, 2x1 system with singular value 1, niter=60: residual norm never increases '
+       '(observed %r ...)' % (['%.3g' % v for v in env['vals'][:7]],), rp)
+    import odl
+    rs = np.random.RandomState(rng.randrange(2 ** 31))
+    ok, worst = True, None
+    for _ in range(60 if tier == 'quick' else 400):
+        M = rs.randn(2, 1) * 10 ** rs.uniform(-3, 3)
+        M = M / np.linalg.norm(M)
+        b = rs.randn(2) * 10 ** rs.uniform(-2, 4)
+        x0 = (rs.randn(1) * 10 ** rs.uniform(-2, 2)).tolist()
+        op = odl.MatrixOperator(M)
+        rhs = op.range.element(b)
+        x = op.domain.element(list(x0))
+        vals = [float((op(x) - rhs).norm())]
+        try:
+            odl.solvers.conjugate_gradient_normal(op, x, rhs, 60, callback=lambda z: vals.append(float((op(z) - rhs).norm())))
+        except OverflowError:
+            vals.append(float('inf'))
+        if not _mono(vals, 1e-9):
+            ok, worst = False, {'M': M.tolist(), 'b': b.tolist(), 'x0': x0, 'vals': ['%.3g' % v for v in vals[:8]]}
+    _P(out, ok, 'cgn-noise-floor-overflow',
+       'conjugate_gradient_normal on random 2x1 systems with singular value 1 (60 iterations): residual norm never increases',
+       None, worst)
 
 
 def _descent_probes(rng, tier, out):
@@ -1491,11 +1529,323 @@ def _fb_probe(out, rng, sp, L, fT, f, h, hb, g2T, g2, tau, sig, x0, NIT):
        {'M': _matrix(L).tolist(), 'f': repr(fT), 'g': repr(g2T), 'tau': tau, 'sigma': sig, 'x0': x0})
 
 
+# ============================================================ the property's own statement, option by option
+# "A solution is a fixed point of each of them" and "the iterate is driven towards a point that satisfies the
+# optimality conditions", evaluated for EVERY keyword of every solver signature at its default and at >= 2
+# non-default values.  Problems have a minimiser known in closed form at exactly representable numbers:
+#   lasso with orthogonal design   min 1/2 |Q x - b|^2 + c |x|_1,  Q^T Q = I :  x* = soft(Q^T b, c)
+#   quadratic + box                min 1/2 |x - a|^2 + indicator[lo,hi]      :  x* = clip(a)
+#   quadratic + L2                 min 1/2 |x - a|^2 + c |x|_2, a = (3,4)k   :  x* = (1 - c/|a|)+ a
+#   quadratic + g(Lx), a in ker L  (solvers whose duals start at zero inside the function): x* = a
+#   consistent linear systems      A x* = b with integer data
+FP_TOL = 1e-10
+FP_OPTIONS = {
+    # solver: {keyword: [values]}; the first value of each list is the default.  'cb' = a recording callback,
+    # 'call:..' = a callable returning the listed values cyclically, 'proj' = a projection that fixes x*
+    'landweber': {'niter': [3, 0, 1], 'omega': [None, 0.125, 0.03125], 'projection': [None, 'proj', 'proj'],
+                  'callback': [None, 'cb', 'cb']},
+    'conjugate_gradient': {'niter': [3, 0, 1], 'callback': [None, 'cb', 'cb']},
+    'conjugate_gradient_normal': {'niter': [1, 0, 3], 'callback': [None, 'cb', 'cb']},
+    'kaczmarz': {'niter': [2, 0, 1], 'omega': [1, 0.0625, 'list'], 'projection': [None, 'proj', 'proj'],
+                 'random': [False, True, True], 'callback': [None, 'cb', 'cb'], 'callback_loop': ['outer', 'inner', 'inner']},
+    'pdhg': {'niter': [3, 0, 1], 'tau': [0.25, 0.5, 0.0625], 'sigma': [0.25, 1.0, 0.125], 'theta': [1, 0.5, 0.0],
+             'gamma_primal': [None, 0.5, 2.0], 'gamma_dual': [None, 0.25, 1.0], 'callback': [None, 'cb', 'cb'],
+             'x_relax': ['given', None, 'given'], 'y': ['given', 'given', 'given']},
+    'douglas_rachford_pd': {'niter': [3, 1, 2], 'tau': [0.25, 0.5, 1.0], 'sigma': [[0.5], [0.25], [2.0]],
+                            'callback': [None, 'cb', 'cb'], 'l': [None, 'indzero', 'indzero'],
+                            'lam': [1.0, 0.5, 1.5, 'call:0.5,1.5']},
+    'forward_backward_pd': {'niter': [3, 0, 1], 'tau': [0.25, 0.125, 0.5], 'sigma': [[0.5], [0.25], [1.0]],
+                            'callback': [None, 'cb', 'cb'], 'l': [None, 'l2sq', 'l2sq']},
+    'proximal_gradient': {'niter': [3, 0, 1], 'gamma': [0.5, 0.25, 1.0], 'callback': [None, 'cb', 'cb'],
+                          'lam': [1.0, 0.5, 1.5, 'call:0.5,1.5,1.0']},
+    'accelerated_proximal_gradient': {'niter': [3, 0, 1], 'gamma': [0.5, 0.25, 1.0], 'callback': [None, 'cb', 'cb']},
+    'admm_linearized': {'niter': [3, 0, 1], 'tau': [0.125, 0.25, 0.0625], 'sigma': [1.0, 0.5, 2.0],
+                        'callback': [None, 'cb', 'cb']},
+    'steepest_descent': {'line_search': [1.0, 0.25, 'backtracking'], 'maxiter': [3, 0, 1], 'tol': [1e-16, 1e-3, 0.5],
+                         'projection': [None, 'proj', 'proj'], 'callback': [None, 'cb', 'cb']},
+}
+# keywords that are the problem itself, not options
+FP_PROBLEM_ARGS = {'op', 'ops', 'x', 'rhs', 'f', 'g', 'L', 'h', 'kwargs'}
+
+
+def _fp_call_spec(v):
+    if isinstance(v, str) and v.startswith('call:'):
+        seq = [float(t) for t in v[5:].split(',')]
+        return lambda k: seq[k % len(seq)]
+    return v
+
+
+def fp_run(solver, opts):
+    """Run `solver` started AT the known minimiser of its closed-form problem with the given options; returns
+    (max distance of any visited iterate / final iterate from the minimiser, description)."""
+    import odl
+    S = odl.solvers
+    sp = odl.rn(2)
+    seen = []
+    o = dict(opts)
+    cb = (lambda z: seen.append(z.copy())) if o.pop('callback', None) == 'cb' else None
+
+    def dist(xs, x):
+        pts = [x] + seen
+        return max(float((p - xs).norm()) for p in pts)
+    if solver in ('landweber', 'conjugate_gradient', 'conjugate_gradient_normal', 'kaczmarz'):
+        A = np.array([[2.0, 1.0], [1.0, 3.0]])
+        xs = sp.element([1.0, -2.0])
+        op = odl.MatrixOperator(A)
+        x = xs.copy()
+        proj = (lambda z: z.ufuncs.maximum(-5.0, out=z)) if o.pop('projection', None) == 'proj' else None
+        if solver == 'landweber':
+            S.landweber(op, x, op(xs), o.pop('niter'), omega=o.pop('omega'), projection=proj, callback=cb)
+        elif solver == 'conjugate_gradient':
+            S.conjugate_gradient(op, x, op(xs), o.pop('niter'), callback=cb)
+        elif solver == 'conjugate_gradient_normal':
+            S.conjugate_gradient_normal(odl.MatrixOperator(np.array([[1.0, 2.0], [0.0, 1.0], [2.0, -1.0]])), x,
+                                        odl.MatrixOperator(np.array([[1.0, 2.0], [0.0, 1.0], [2.0, -1.0]]))(xs),
+                                        o.pop('niter'), callback=cb)
+        else:
+            ops = [odl.MatrixOperator(np.array([[2.0, 1.0]])), odl.MatrixOperator(np.array([[1.0, 3.0], [8.0, -8.0]]))]
+            om = o.pop('omega')
+            om = [0.125, 0.00390625] if om == 'list' else om
+            np.random.seed(3)
+            S.kaczmarz(ops, x, [q(xs) for q in ops], o.pop('niter'), omega=om, projection=proj, random=o.pop('random'),
+                       callback=cb, callback_loop=o.pop('callback_loop'))
+        assert not o, o
+        return dist(xs, x), 'A x* = b'
+    if solver == 'steepest_descent':
+        xs = sp.element([1.5, -0.5])
+        f = 0.5 * S.L2NormSquared(sp).translated(xs)
+        x = xs.copy()
+        ls = o.pop('line_search')
+        if ls == 'backtracking':
+            ls = S.BacktrackingLineSearch(f)
+        proj = (lambda z: z.ufuncs.maximum(-5.0, out=z)) if o.pop('projection', None) == 'proj' else None
+        S.steepest_descent(f, x, line_search=ls, maxiter=o.pop('maxiter'), tol=o.pop('tol'), projection=proj, callback=cb)
+        assert not o, o
+        return dist(xs, x), 'min 1/2 |x - x*|^2'
+    # lasso with orthogonal design: Q = [[0,1],[-1,0]], b = (0.5, 3), c = 1: Q^T b = (-3, 0.5), x* = (-2, 0)
+    Q = np.array([[0.0, 1.0], [-1.0, 0.0]])
+    b = sp.element([0.5, 3.0])
+    xs = sp.element([-2.0, 0.0])
+    Qop = odl.MatrixOperator(Q)
+    if solver in ('proximal_gradient', 'accelerated_proximal_gradient'):
+        f = S.L1Norm(sp)
+        g = 0.5 * S.L2NormSquared(sp).translated(b) * Qop
+        x = xs.copy()
+        kw = {}
+        if 'lam' in o:
+            lam = _fp_call_spec(o.pop('lam'))
+            if lam != 1.0 or True:
+                kw['lam'] = lam
+        getattr(S, solver)(x, f, g, o.pop('gamma'), o.pop('niter'), callback=cb, **kw)
+        assert not o, o
+        return dist(xs, x), 'lasso, orthogonal design, x* = soft(Q^T b, 1) = (-2, 0)'
+    if solver == 'pdhg':
+        # min |x|_1 + 1/2 |Q x - b|^2 : dual y* = Q x* - b
+        f = S.L1Norm(sp)
+        g = 0.5 * S.L2NormSquared(sp).translated(b)
+        ys = Qop(xs) - b
+        x, y = xs.copy(), ys.copy()
+        kw = {'y': y}
+        xr = o.pop('x_relax')
+        o.pop('y')
+        if xr == 'given':
+            kw['x_relax'] = xs.copy()
+        for k in ('theta', 'gamma_primal', 'gamma_dual'):
+            v = o.pop(k)
+            if v is not None and not (k == 'theta' and v == 1 and False):
+                kw[k] = v
+        if kw.get('gamma_primal') is not None and kw.get('gamma_dual') is not None:
+            kw.pop('gamma_dual')
+        S.pdhg(x, f, g, Qop, o.pop('niter'), tau=o.pop('tau'), sigma=o.pop('sigma'), callback=cb, **kw)
+        assert not o, o
+        return max(dist(xs, x), float((y - ys).norm())), 'lasso as saddle point, (x*, y*) = ((-2, 0), Q x* - b)'
+    # solvers whose dual variables are created inside the function (start at zero): a in ker L, dual solution 0
+    a = sp.element([1.5, 1.5])
+    L = odl.MatrixOperator(np.array([[1.0, -1.0]]))
+    if solver == 'forward_backward_pd':
+        # min |x|_1 + 1/2 |x - a'|^2 + |L x - L x*|_1 : x* = soft(a', 1), dual 0 (kink of g at L x*)
+        ap = sp.element([3.0, -0.5])
+        xs2 = sp.element([2.0, 0.0])
+        f, h = S.L1Norm(sp), 0.5 * S.L2NormSquared(sp).translated(ap)
+        g = S.L1Norm(L.range).translated(L(xs2))
+        kw = {}
+        lv = o.pop('l')
+        if lv == 'l2sq':
+            kw['l'] = [S.L2NormSquared(L.range)]          # grad l^*(0) = 0: the dual solution 0 is kept
+        x = xs2.copy()
+        S.forward_backward_pd(x, f, [g], [L], h, o.pop('tau'), o.pop('sigma'), o.pop('niter'), callback=cb, **kw)
+        assert not o, o
+        return dist(xs2, x), 'min |x|_1 + 1/2 |x - (3, -1/2)|^2 + |L(x - x*)|_1, x* = (2, 0)'
+    f = 0.5 * S.L2NormSquared(sp).translated(a)
+    g = S.L1Norm(L.range)
+    x = a.copy()
+    if solver == 'admm_linearized':
+        S.admm_linearized(x, f, g, L, o.pop('tau'), o.pop('sigma'), o.pop('niter'), callback=cb)
+    else:
+        kw = {}
+        lv = o.pop('l')
+        if lv == 'indzero':
+            kw['l'] = [S.IndicatorZero(L.range)]          # l^* = 0: infimal convolution with l changes nothing
+        lam = _fp_call_spec(o.pop('lam'))
+        S.douglas_rachford_pd(x, f, [g], [L], o.pop('niter'), tau=o.pop('tau'), sigma=o.pop('sigma'), callback=cb,
+                              lam=lam, **kw)
+    assert not o, o
+    return dist(a, x), 'min 1/2 |x - a|^2 + |x_1 - x_2|, a = (3/2, 3/2) in ker L: x* = a, dual 0'
+
+
+def _fp_replay(solver, opts):
+    return ("import sys\nsys.path.insert(0, %r)\nfrom harness.c12 import fp_run\nobserved, problem = fp_run(%r, %r)\n"
+            "expected = 'distance from the known minimiser <= %g'\nok = observed <= %g\n"
+            % (C.VERIF, solver, opts, FP_TOL, FP_TOL))
+
+
+def _fp_option_sets(solver):
+    """defaults; each keyword at each of its non-default values (others default); all non-default at once"""
+    table = FP_OPTIONS[solver]
+    base = {k: v[0] for k, v in table.items()}
+    yield 'defaults', dict(base)
+    for k, vals in table.items():
+        for j, v in enumerate(vals[1:], 1):
+            o = dict(base)
+            o[k] = v
+            if k == 'niter' and v == 0:
+                pass
+            if o.get('niter', 1) == 0 or o.get('maxiter', 1) == 0:
+                o[k] = v
+            if solver == 'pdhg' and k == 'gamma_dual':
+                o['gamma_primal'] = None
+            yield '%s=%r' % (k, v), o
+    for j in (1, 2):
+        o = {k: (v[j] if len(v) > j else v[-1]) for k, v in table.items()}
+        if solver == 'pdhg':
+            o['gamma_dual' if j == 1 else 'gamma_primal'] = None
+        for it in ('niter', 'maxiter'):
+            if it in o and o[it] == 0:
+                o[it] = 2
+        yield 'all-nondefault-%d' % j, o
+
+
+def _fixed_point_option_probes(out, stop_at_first=False):
+    for solver in FP_OPTIONS:
+        for label, opts in _fp_option_sets(solver):
+            try:
+                d, problem = fp_run(solver, opts)
+                ok, why = d <= FP_TOL, 'moved by %.3g' % d
+            except Exception as e:
+                ok, why = False, 'raised %s: %s' % (type(e).__name__, str(e)[:120])
+            key = 'fixed-point-%s-%s' % (solver, label.split('=')[0])
+            _P(out, ok, key, '%s started at the known minimiser with %s stays there (%s)' % (solver, label, why),
+               _fp_replay(solver, opts), {'options': repr(opts)})
+            if stop_at_first and not ok:
+                return
+
+
+def _limit_option_probes(out, tier):
+    """conversely: the limit of a long run satisfies the sub-gradient inclusion, for non-default relaxation / steps"""
+    import odl
+    S = odl.solvers
+    sp = odl.rn(2)
+    Q = np.array([[0.0, 1.0], [-1.0, 0.0]])
+    b = sp.element([0.5, 3.0])
+    Qop = odl.MatrixOperator(Q)
+    fT = Term('l1', c=1.0)
+    f = S.L1Norm(sp)
+    g = 0.5 * S.L2NormSquared(sp).translated(b) * Qop
+    nit = 400 if tier == 'quick' else 1500
+
+    def resid(z):
+        return fT.sub_dist(sp, z, -Qop.adjoint(Qop(z) - b))
+    for lam in (1.0, 0.5, 1.5, 'call:0.5,1.5'):
+        for gamma in (0.5, 1.0):
+            x = sp.element([3.0, 3.0])
+            S.proximal_gradient(x, f, g, gamma, nit, lam=_fp_call_spec(lam))
+            r = resid(x)
+            _P(out, r <= 1e-8, 'limit-proximal_gradient-lam', 'proximal_gradient(lam=%r, gamma=%r): limit satisfies '
+               '-grad g(x) in d|x|_1 (residual %.3g)' % (lam, gamma, r),
+               "import odl, numpy as np\nS=odl.solvers; sp=odl.rn(2); Qop=odl.MatrixOperator(np.array([[0.,1.],[-1.,0.]])); b=sp.element([.5,3.])\n"
+               "x=sp.element([3.,3.]); lam=%r\nif isinstance(lam,str): seq=[float(t) for t in lam[5:].split(',')]; lam=lambda k: seq[k %% len(seq)]\n"
+               "S.proximal_gradient(x,S.L1Norm(sp),0.5*S.L2NormSquared(sp).translated(b)*Qop,%r,%d,lam=lam)\n"
+               "observed=x.asarray().tolist(); expected=[-2.0,0.0]; ok=float((x-sp.element(expected)).norm())<=1e-7\n" % (lam, gamma, nit))
+    for gamma in (0.5, 0.25):
+        x = sp.element([3.0, 3.0])
+        S.accelerated_proximal_gradient(x, f, g, gamma, nit)
+        r = resid(x)
+        _P(out, r <= 1e-6, 'limit-accelerated_proximal_gradient-gamma', 'accelerated_proximal_gradient(gamma=%r): '
+           'residual of the inclusion %.3g' % (gamma, r), None)
+    g2 = 0.5 * S.L2NormSquared(sp).translated(b)
+    # gamma_dual needs g^* strongly convex (g = 1/2|.-b|^2: yes); gamma_primal needs f strongly convex: use the
+    # mirrored problem  min 1/2 |x - a|^2 + |Q x|_1  there.  Accelerated variants converge like 1/N^2: looser bound.
+    a_ = sp.element([3.0, -0.5])
+    fq, gl = 0.5 * S.L2NormSquared(sp).translated(a_), S.L1Norm(sp)
+    for tau, sigma, theta, acc in ((0.25, 0.25, 1, {}), (0.5, 1.0, 1, {}), (0.0625, 4.0, 1, {}), (0.5, 0.5, 1, {'gamma_primal': 0.5}),
+                                   (0.5, 0.5, 1, {'gamma_dual': 0.5}), (0.25, 0.5, 0.5, {})):
+        x = sp.element([3.0, 3.0])
+        y = sp.zero()
+        if 'gamma_primal' in acc:
+            S.pdhg(x, fq, gl, Qop, nit * 3, tau=tau, sigma=sigma, theta=theta, y=y, **acc)
+            r = float((x - a_ + Qop.adjoint(y)).norm()) + fT.sub_dist(sp, Qop(x), y)
+        else:
+            S.pdhg(x, f, g2, Qop, nit * 3, tau=tau, sigma=sigma, theta=theta, y=y, **acc)
+            r = fT.sub_dist(sp, x, -Qop.adjoint(y)) + float((y - (Qop(x) - b)).norm())
+        # theta < 1 has no convergence guarantee in general; on this strongly convex problem it converges as well
+        _P(out, r <= (1e-4 if acc else 1e-6), 'limit-pdhg-%s' % ('-'.join(sorted(acc)) or 'theta=%r' % theta),
+           'pdhg(tau=%r, sigma=%r, theta=%r, %r): KKT residual of the limit %.3g' % (tau, sigma, theta, acc, r), None)
+    a = sp.element([1.5, 1.0])
+    L = odl.MatrixOperator(np.array([[1.0, -1.0]]))
+    f3 = 0.5 * S.L2NormSquared(sp).translated(a)
+    gT = Term('l1', c=1.0)
+    for lam in (1.0, 0.5, 1.5, 'call:0.5,1.5'):
+        x = sp.element([3.0, -3.0])
+        spy = _SpyConj(S.L1Norm(L.range))
+        S.douglas_rachford_pd(x, f3, [spy], [L], nit, tau=0.5, sigma=[1.0], lam=_fp_call_spec(lam))
+        yv = spy.last_out
+        r = float((x - a + L.adjoint(yv)).norm()) + gT.sub_dist(L.range, L(x), yv)
+        _P(out, r <= 1e-6, 'limit-douglas_rachford_pd-lam', 'douglas_rachford_pd(lam=%r): KKT residual of the limit %.3g'
+           % (lam, r), None)
+
+
+def search(rng, broken):
+    """Something is broken (a proof over regenerated code, the translator, the correspondence): evaluate the property's
+    own statement option by option and return the first input on which it fails (not a recorded finding)."""
+    known = C.load_findings(PID)
+    out = []
+    _fixed_point_option_probes(out)
+    _limit_option_probes(out, 'quick')
+    for p in out:
+        if not p.ok and p.key not in known:
+            return p
+    return None
+
+
+def extra_coverage():
+    """Every keyword of every anchored solver signature (incl. the ones popped from **kwargs) against the option
+    table of the fixed-point family: a keyword without probe values shows up under 'uncovered'."""
+    import inspect
+    import re
+    import odl
+    S = odl.solvers
+    rep = {}
+    for name in FP_OPTIONS:
+        fn = getattr(S, name)
+        kws = [k for k in inspect.signature(fn).parameters if k not in FP_PROBLEM_ARGS]
+        kws += re.findall(r"kwargs\.pop\('(\w+)'", inspect.getsource(fn))
+        table = FP_OPTIONS[name]
+        rep[name] = {'keywords': kws,
+                     'values': {k: [repr(v) for v in table[k]] for k in kws if k in table},
+                     'uncovered': [k for k in kws if k not in table or len(table[k]) < 3],
+                     'stale_table_entries': [k for k in table if k not in kws]}
+    rep['all_covered'] = all(not r['uncovered'] and not r['stale_table_entries'] for r in rep.values() if isinstance(r, dict))
+    return rep
+
+
 def probes(rng, tier):
     out = []
+    _fixed_point_option_probes(out)
+    _limit_option_probes(out, tier)
     np.random.seed(rng.randrange(2 ** 31))
     _linear_probes(rng, tier, out)
     _cgn_blowup_probe(out)
+    _cgn_noise_floor_probe(rng, tier, out)
     _descent_probes(rng, tier, out)
     _linesearch_reuse_probes(rng, tier, out)
     _linesearch_stale_state_probes(rng, tier, out)
